@@ -125,7 +125,7 @@ def run_ticking(out, rnd, zone, n):
 def thread_call(start, days):
     from aioswitcher.schedule import Days, tools
     D_ = list(Days)
-    try: return "ok " + tools.pretty_next_run(start, {D_[i] for i in days})
+    try: return lib.ok(tools.pretty_next_run(start, {D_[i] for i in days}))
     except Exception: return "raised"
 
 
